@@ -53,8 +53,10 @@ CLAIMED["C12"] = dict(
     technique="machine-checked proof in Coq (induction over chunkings, invariant over the pool LTS) + model/implementation correspondence by vm_compute")
 CLAIMED["C05"] = dict(
     text="Coq theorems over models of the printers, the one-line lexer, type/class mnemonic tables (every code point), the "
-         "RFC 3597 generic form and a presentation grammar with layouts for 49 regular types: printed text is re-read to the "
-         "same fields (any octets, any length); 25 irregular types by direct oracle only (partial); models tied to /repo by "
+         "RFC 3597 generic form and a presentation grammar with layouts for 66 of the 74 presentable types (RRSIG/SIG times with the "
+         "clock as a parameter, NSEC3, CAA, NAPTR, CERT mnemonics, EUI/NID spellings included): printed text is re-read to the "
+         "same fields (any octets, any length); 8 types (AAAA, LOC, APL, HIP, IPSECKEY, AMTRELAY, SVCB, HTTPS) by direct oracle "
+         "only (partial); models tied to /repo by "
          "vm_compute correspondence and NewRR(String()) oracles on records from wire and from text for every type each run; "
          "48 recorded findings in known_findings.json",
     technique="machine-checked proof in Coq (induction over octet strings and grammars, exhaustive code-point sweeps) + model/implementation correspondence by vm_compute")
